@@ -78,12 +78,13 @@ import (
 type verRange struct{ key, min, max int16 }
 
 type fakeConn struct {
-	in      []byte // everything the client wrote
-	parsed  int    // bytes of in already answered (priming)
-	resp    []byte
-	priming bool
-	table   []verRange
-	closed  bool
+	in       []byte // everything the client wrote
+	parsed   int    // bytes of in already answered (priming)
+	resp     []byte
+	priming  bool
+	table    []verRange
+	rawTable []byte // when set: the body of the ApiVersions answer, as is
+	closed   bool
 }
 
 func (f *fakeConn) pump() {
@@ -106,6 +107,9 @@ func (f *fakeConn) pump() {
 			body = binary.BigEndian.AppendUint16(body, uint16(v.key))
 			body = binary.BigEndian.AppendUint16(body, uint16(v.min))
 			body = binary.BigEndian.AppendUint16(body, uint16(v.max))
+		}
+		if f.rawTable != nil {
+			body = f.rawTable
 		}
 		fr := binary.BigEndian.AppendUint32(nil, uint32(len(body)+4))
 		fr = binary.BigEndian.AppendUint32(fr, corr)
@@ -1664,6 +1668,7 @@ func genAll(n int) {
 			genNeg(k)
 			genNeg(k)
 		}
+		genResponses(1)
 	}
 }
 
